@@ -41,6 +41,24 @@ def assume_sign(M, atom, s):
     return MatVal(M.r, M.c, [[deep_subs(p, f) if p.t else p for p in row] for row in M.cells], M.kind)
 
 
+def drop_unit_clamps(M):
+    """fmin(u, 1) -> u and fmax(u, -1) -> u where u = +-x / sqrt(x^2 + squares): |u| <= 1 for every real input, so the clamp
+    never acts (seeded C03-14 wraps the acos argument of the quaternion log in such a clamp)."""
+    from .c06 import _bounded_by_construction
+
+    def f(a):
+        if a.kind in ("fmin", "fmax") and isinstance(a.key[0], Poly) and isinstance(a.key[1], Poly):
+            bound = 1 if a.kind == "fmin" else -1
+            for u, b in ((a.key[0], a.key[1]), (a.key[1], a.key[0])):
+                if b.const_value() == bound:
+                    u2 = deep_subs(u, f)
+                    ua = u2.single_atom()
+                    if not (ua is not None and ua.kind in ("fmin", "fmax")) and _bounded_by_construction(u2):
+                        return u2
+        return None
+    return MatVal(M.r, M.c, [[deep_subs(p, f) if p.t else p for p in row] for row in M.cells], M.kind)
+
+
 def is_shadowed(param):
     """param cells are if_else(1 < b.b, -b_i/(b.b), b_i) for one vector b."""
     cells = param.flat()
@@ -119,7 +137,7 @@ def quat_log_principal(w, rep, rule, prefix=""):
         coef = cm.pdiv(a.scale(2), cm.un("sin", a))
         return cm.ew(w.sl(c, 1, 4), cm.scalar(coef), cm.pmul)
     for s, label, ref in ((1, "q0 > 0", textbook(q)), (-1, "q0 < 0", textbook(cm.neg(q)))):
-        got = assume_sign(L, qa[0], s)
+        got = drop_unit_clamps(assume_sign(L, qa[0], s))
         inst = prefix + "SO3Quat.log is the principal rotation vector 2 acos(|q0|) n for %s" % label
         v, d = decide_mat(got, ref)
         if v == EQUAL:
